@@ -83,8 +83,16 @@ Qed.
 
 (* ================================================================== B. the invariant *)
 
+(* the hashpower respects the user-set maximum *)
+Definition within (t : table) : Prop :=
+  mhp t = NO_MAXIMUM_HASHPOWER \/ bhp (cur t) <= mhp t.
+
 Definition good (t : table) : Prop :=
-  settled t /\ counted t /\ bhp (cur t) < 60 /\ (length (cur_locks t) <= N.to_nat (kmax c))%nat.
+  settled t /\ counted t /\ bhp (cur t) < 60 /\ (length (cur_locks t) <= N.to_nat (kmax c))%nat /\
+  within t.
+
+Lemma within_same t t' : mhp t' = mhp t -> bhp (cur t') = bhp (cur t) -> within t -> within t'.
+Proof. unfold within. intros -> ->. exact (fun H => H). Qed.
 
 (* the user-set limits *)
 Definition lim_same (t t' : table) : Prop :=
@@ -124,14 +132,15 @@ Qed.
 
 Lemma good_same_contents t t' : good t -> same_contents t t' -> evolves t t' /\ bhp (cur t') = bhp (cur t).
 Proof.
-  intros [St [Ct [Hb Hl]]] Hsc. assert (Hlim := same_contents_lim t t' Hsc).
+  intros [St [Ct [Hb [Hl Hw]]]] Hsc. assert (Hlim := same_contents_lim t t' Hsc).
   destruct Hsc as [St' [Hhp [Hlk [_ Hh]]]].
   assert (Hcl : cur_locks t' = cur_locks t) by (apply cur_locks_locks; exact Hlk).
   split; [|exact Hhp]. split.
   - split; [exact St'|]. split.
     + unfold InvDefs.counted in *. rewrite Hcl, Ct. f_equal. symmetry.
       apply count_arr_holds; [apply (se_arr _ _ _ St)|apply (se_arr _ _ _ St')|exact Hh].
-    + split; [lia|]. rewrite Hcl. exact Hl.
+    + split; [lia|]. split; [rewrite Hcl; exact Hl|].
+      apply (within_same t t' (proj1 (proj2 (proj2 Hlim))) Hhp Hw).
   - split; [exact Hh|]. split; [exact Hlim|lia].
 Qed.
 
@@ -157,30 +166,6 @@ Lemma fast_double_f_nothrow_unfold n auto mode t hp :
   end.
 Proof. intro H. cbn [fast_double_f]. rewrite H. reflexivity. Qed.
 
-(* a doubling is immediate when the old array has fewer buckets than stripes, or in locked mode *)
-Lemma fast_double_body_good mode t :
-  good t ->
-  hashsize (bhp (cur t)) < kmax c \/ mode = true ->
-  bhp (cur t) + 1 < 60 ->
-  let t' := fast_double_body c hash mode t (bhp (cur t) + 1) in
-  good t' /\ bhp (cur t') = bhp (cur t) + 1 /\
-  (forall k v, holds (cur t') k v <-> holds (cur t) k v) /\
-  lim_same t t' /\ rc t' = wrap64 (rc t + 1) /\ nrem t' = 0.
-Proof.
-  intros [St [Ct [Hb Hl]]] Him Hb1.
-  assert (Him' : hashsize (bhp (cur t)) < kmax c \/
-                 mode = true /\ (length (cur_locks t) <= N.to_nat (kmax c))%nat).
-  { destruct Him as [H|H]; [left; exact H|right; split; [exact H|exact Hl]]. }
-  assert (Hb2 : bhp (cur t) + 1 < 62) by lia.
-  destruct (fast_double_body_immediate c hash Hc mode t St Ct Hb2 Him')
-    as [St' [Ct' [Hhp [Hh [Hrc [M1 [M2 [M3 [M4 [Hnr Hlen]]]]]]]]]].
-  cbv zeta. split.
-  - split; [exact St'|]. split; [exact Ct'|]. split; [lia|]. rewrite Hlen.
-    apply Nat.max_lub; [exact Hl|]. lia.
-  - split; [exact Hhp|]. split; [exact Hh|]. split; [repeat split; assumption|].
-    split; assumption.
-Qed.
-
 Definition maxed (t : table) (new_hp : N) : Prop :=
   mhp t <> NO_MAXIMUM_HASHPOWER /\ mhp t < new_hp.
 
@@ -191,6 +176,35 @@ Proof.
   - destruct (N.lt_ge_cases (mhp t) n) as [L|L].
     + left. split; assumption.
     + right. intros [_ H]. lia.
+Qed.
+
+(* a doubling is immediate when the old array has fewer buckets than stripes, or in locked mode *)
+Lemma fast_double_body_good mode t :
+  good t ->
+  hashsize (bhp (cur t)) < kmax c \/ mode = true ->
+  bhp (cur t) + 1 < 60 ->
+  ~ maxed t (bhp (cur t) + 1) ->
+  let t' := fast_double_body c hash mode t (bhp (cur t) + 1) in
+  good t' /\ bhp (cur t') = bhp (cur t) + 1 /\
+  (forall k v, holds (cur t') k v <-> holds (cur t) k v) /\
+  lim_same t t' /\ rc t' = wrap64 (rc t + 1) /\ nrem t' = 0.
+Proof.
+  intros [St [Ct [Hb [Hl Hw]]]] Him Hb1 Hnm.
+  assert (Him' : hashsize (bhp (cur t)) < kmax c \/
+                 mode = true /\ (length (cur_locks t) <= N.to_nat (kmax c))%nat).
+  { destruct Him as [H|H]; [left; exact H|right; split; [exact H|exact Hl]]. }
+  assert (Hb2 : bhp (cur t) + 1 < 62) by lia.
+  destruct (fast_double_body_immediate c hash Hc mode t St Ct Hb2 Him')
+    as [St' [Ct' [Hhp [Hh [Hrc [M1 [M2 [M3 [M4 [Hnr Hlen]]]]]]]]]].
+  cbv zeta. split.
+  - split; [exact St'|]. split; [exact Ct'|]. split; [lia|]. split.
+    + rewrite Hlen. apply Nat.max_lub; [exact Hl|]. lia.
+    + unfold within. rewrite M3, Hhp. unfold maxed in Hnm.
+      destruct (N.eq_dec (mhp t) NO_MAXIMUM_HASHPOWER) as [E|E]; [left; exact E|right].
+      destruct (N.le_gt_cases (bhp (cur t) + 1) (mhp t)) as [L|L]; [exact L|].
+      exfalso. apply Hnm. split; assumption.
+  - split; [exact Hhp|]. split; [exact Hh|]. split; [repeat split; assumption|].
+    split; assumption.
 Qed.
 
 (* with [mhp t <= lbits c] a permitted doubling starts below the stripe count *)
@@ -237,7 +251,7 @@ Proof.
       destruct (N.le_gt_cases (hp + 1) (mhp t)) as [L|L]; [exact L|]. exfalso. apply Hm. split; assumption. }
     rewrite E. split; [reflexivity|]. intro Hb1.
     assert (Hb : bhp (cur t) < 60) by (destruct G as [_ [_ [Hb _]]]; exact Hb).
-    destruct (fast_double_body_good mode t G (immediate_small mode t Him Hm Hb) Hb1)
+    destruct (fast_double_body_good mode t G (immediate_small mode t Him Hm Hb) Hb1 Hm)
       as [G' [Hhp [Hh [Hlim [Hrc Hnr]]]]].
     cbv zeta. split; [exact G'|]. split; [exact Hhp|]. split; [exact Hh|]. split; [exact Hlim|].
     split; [|split; assumption].
@@ -271,10 +285,17 @@ Qed.
 (* ================================================================== D. the insert loop *)
 
 (* exceptions a policy check or a fuel bound may raise *)
-Definition exn_ok (auto : bool) (t : table) (e : exn) : Prop :=
+Definition exn_ok0 (auto : bool) (t : table) (e : exn) : Prop :=
   (e = EMaxHashpower /\ mhp t <> NO_MAXIMUM_HASHPOWER) \/
   (e = ELoadFactorTooLow /\ auto = true /\ mlfn t <> 0) \/
   e = EOutOfFuel.
+
+(* ... and, on the automatic-doubling path of a nothrow type, the state that justifies them *)
+Definition exn_ok (auto : bool) (t t' : table) (e : exn) : Prop :=
+  exn_ok0 auto t e /\
+  (nothrow c = true ->
+   (e = EMaxHashpower -> bhp (cur t') = mhp t) /\
+   (e = ELoadFactorTooLow -> lf_lt_mlf c t' = true)).
 
 (* the table an exception leaves behind (the rebuild path of a type whose move is destructive
    leaves moved-from elements: known finding, excluded here) *)
@@ -290,7 +311,7 @@ Definition fd_post (t : table) (r : rres) : Prop :=
   match snd r with
   | inr St_ok => evolves t (fst r) /\ bhp (cur t) < bhp (cur (fst r))
   | inr _ => False
-  | inl e => exn_ok true t e /\ fail_ok t (fst r)
+  | inl e => exn_ok true t (fst r) e /\ fail_ok t (fst r)
   end.
 
 (* what the insert loop needs of its expansion function; [lim] constrains the maximum hashpower *)
@@ -303,13 +324,22 @@ Proof.
   split; [exact Hb|]. destruct Ev as [_ [_ [[_ [_ [E _]]] _]]]. rewrite <- E. exact Hm.
 Qed.
 
-Lemma exn_ok_lim auto t t1 e : lim_same t t1 -> exn_ok auto t1 e -> exn_ok auto t e.
+Lemma exn_ok0_lim auto t t1 e : lim_same t t1 -> exn_ok0 auto t1 e -> exn_ok0 auto t e.
 Proof.
   intros [E1 [_ [E3 _]]] [[He Hm]|[[He [Ha Hm]]|He]].
   - left. split; [exact He|]. rewrite <- E3. exact Hm.
   - right. left. split; [exact He|]. split; [exact Ha|]. rewrite <- E1. exact Hm.
   - right. right. exact He.
 Qed.
+
+Lemma exn_ok_lim auto t t1 t' e : lim_same t t1 -> exn_ok auto t1 t' e -> exn_ok auto t t' e.
+Proof.
+  intros L [H0 H1]. split; [eapply exn_ok0_lim; eassumption|].
+  destruct L as [_ [_ [E3 _]]]. rewrite <- E3. exact H1.
+Qed.
+
+Lemma exn_ok_fuel auto t t' : exn_ok auto t t' EOutOfFuel.
+Proof. split; [right; right; reflexivity|]. intros _. split; intro H; discriminate. Qed.
 
 Lemma fail_ok_evolves t t1 t2 : evolves t t1 -> fail_ok t1 t2 -> fail_ok t t2.
 Proof. intros Ev Hf H. eapply evolves_trans; [exact Ev|apply Hf; exact H]. Qed.
@@ -332,11 +362,14 @@ Proof.
   unfold fd_post.
   destruct (maxed_dec t (bhp (cur t) + 1)) as [Hm|Hm].
   - rewrite (H1 Hm). right. cbn [fst snd]. split.
-    + left. split; [reflexivity|]. destruct Hm as [Hm _]. exact Hm.
+    + split; [left; split; [reflexivity|destruct Hm as [Hm _]; exact Hm]|].
+      intros _. split; [|intro H; discriminate]. intros _.
+      destruct G as [_ [_ [_ [_ Hw]]]]. destruct Hm as [Hm1 Hm2]. destruct Hw as [Hw|Hw]; [contradiction|lia].
     + intros _. apply evolves_refl. exact G.
   - destruct (lf_lt_mlf c t) eqn:Hlf.
     + rewrite (H2 Hm eq_refl eq_refl). right. cbn [fst snd]. split.
-      * right. left. split; [reflexivity|]. split; [reflexivity|]. apply lf_true_mlfn. exact Hlf.
+      * split; [right; left; split; [reflexivity|split; [reflexivity|apply lf_true_mlfn; exact Hlf]]|].
+        intros _. split; [intro H; discriminate|]. intros _. exact Hlf.
       * intros _. apply evolves_refl. exact G.
     + destruct (H3 Hm (fun _ => eq_refl)) as [E Hg]. rewrite E. cbn [fst snd].
       destruct (N.lt_ge_cases (bhp (cur t) + 1) 60) as [L|L].
@@ -361,7 +394,7 @@ Definition il_post (t : table) (k : N) (t' : table) (res : il_result) : Prop :=
        (pstatus pos = St_ok /\ ~ key_in (cur t) k /\
         bget (cur t') (pindex pos) (pslot pos) = None /\
         cand hash (bhp (cur t')) k (pindex pos) /\ pslot pos < spb c))
-  | IL_exn e => ~ key_in (cur t) k /\ exn_ok true t e /\ fail_ok t t'
+  | IL_exn e => ~ key_in (cur t) k /\ exn_ok true t t' e /\ fail_ok t t'
   end.
 
 Lemma il_post_evolves t t2 k t' res :
@@ -408,14 +441,14 @@ Lemma insert_loop_absent lim fd mode :
 Proof.
   intro Hfd. induction fuel as [|f IH]; intros t k G Hl Hk t' res E.
   - cbn [cuckoo_insert_loop] in E. injection E as <- <-. right. split; [exact Hk|].
-    split; [right; right; reflexivity|]. intros _. apply evolves_refl. exact G.
+    split; [apply exn_ok_fuel|]. intros _. apply evolves_refl. exact G.
   - assert (St : settled t) by (destruct G as [St _]; exact St).
     cbn [cuckoo_insert_loop] in E.
     destruct (cuckoo_insert_spec c hash Hc mode t k St) as [t1 [r1 [E1 [Hsc [_ Hout]]]]].
     cbv zeta in E1, Hout. rewrite E1 in E.
     destruct (good_same_contents t t1 G Hsc) as [Ev1 Hhp1].
     destruct (Hout Hk) as [->|[pos [-> Hcase]]].
-    + injection E as <- <-. right. split; [exact Hk|]. split; [right; right; reflexivity|].
+    + injection E as <- <-. right. split; [exact Hk|]. split; [apply exn_ok_fuel|].
       intros _. exact Ev1.
     + destruct Hcase as [[Hs [Hg [Hidx Hslot]]]|Hs]; rewrite Hs in E.
       * injection E as <- <-. right. split; [exact Ev1|]. rewrite Hhp1.
@@ -480,11 +513,12 @@ Definition log_of (g : Z -> bool -> option (Z * bool)) (cv : Z) (ins : bool) : l
 
 Definition ures := (exn + (bool * list rv * (N * N)))%type.
 
-(* uprase_gen with the expansion function abstracted (insert_with is the other instance) *)
-Definition uprase_with (fd : bool -> table -> N -> rres) (mode : bool) (t : table) (k : N) (v : Z)
+(* uprase_gen with the expansion function and the loop fuel abstracted (insert_with is the other
+   instance) *)
+Definition uprase_f (fuel : nat) (fd : bool -> table -> N -> rres) (mode : bool) (t : table) (k : N) (v : Z)
   (g : Z -> bool -> option (Z * bool)) : table * ures :=
   let '(t1, i1, i2) := snapshot_and_lock_two c hash mode t k in
-  match cuckoo_insert_loop c hash fd mode t1 k i1 i2 insert_loop_fuel with
+  match cuckoo_insert_loop c hash fd mode t1 k i1 i2 fuel with
   | (t2, IL_exn e) => (t2, inl e)
   | (t2, IL_pos pos _ _) =>
     let inserted := match pstatus pos with St_ok => true | _ => false end in
@@ -499,9 +533,11 @@ Definition uprase_with (fd : bool -> table -> N -> rres) (mode : bool) (t : tabl
     end
   end.
 
+Definition uprase_with (fd : bool -> table -> N -> rres) := uprase_f insert_loop_fuel fd.
+
 Lemma uprase_gen_eq mode t k v g :
   uprase_gen c hash mode t k v g = uprase_with (cuckoo_fast_double c hash) mode t k v g.
-Proof. unfold uprase_gen, uprase_with. reflexivity. Qed.
+Proof. unfold uprase_gen, uprase_with, uprase_f. reflexivity. Qed.
 
 Lemma insert_with_eq fd t k v :
   insert_with c hash fd t k v =
@@ -510,7 +546,7 @@ Lemma insert_with_eq fd t k v :
   | (t', inr _) => (t', None)
   end.
 Proof.
-  unfold insert_with, uprase_with.
+  unfold insert_with, uprase_with, uprase_f.
   destruct (snapshot_and_lock_two c hash false t k) as [[t1 i1] i2].
   destruct (cuckoo_insert_loop c hash fd false t1 k i1 i2 insert_loop_fuel) as [t2 [pos j1 j2|e]];
     [|reflexivity].
@@ -524,13 +560,15 @@ Lemma good_set_val t b s e v :
   (exists e', bget (cur t') b s = Some e' /\ ekey e' = ekey e /\ eval e' = v) /\
   (forall k' v', holds (cur t') k' v' <-> (k' = ekey e /\ v' = v) \/ (k' <> ekey e /\ holds (cur t) k' v')).
 Proof.
-  intros [St [Ct [Hb Hl]]] He.
+  intros [St [Ct [Hb [Hl Hw]]]] He.
   destruct (set_val_settled c hash t b s e v St He) as [St' [Hhp [Hlk [He' Hh]]]].
   cbv zeta in *. split; [|split; [|split; [exact Hhp|split; [exact He'|exact Hh]]]].
-  - split; [exact St'|]. split; [|split; [lia|]].
+  - split; [exact St'|]. split; [|split; [lia|split]].
     + rewrite (set_val_occupied t b s e v He). apply counted_set_cur_same; [|exact Ct].
       apply (count_arr_replace c (cur t) b s e _ He).
     + rewrite (cur_locks_locks _ _ Hlk). exact Hl.
+    + apply (within_same t _); [|exact Hhp|exact Hw].
+      rewrite (set_val_occupied t b s e v He). reflexivity.
   - rewrite (set_val_occupied t b s e v He). repeat split.
 Qed.
 
@@ -546,12 +584,13 @@ Lemma good_del t b s e :
   good t' /\ lim_same t t' /\ bhp (cur t') = bhp (cur t) /\
   (forall k' v', holds (cur t') k' v' <-> holds (cur t) k' v' /\ k' <> ekey e).
 Proof.
-  intros [St [Ct [Hb Hl]]] He.
+  intros [St [Ct [Hb [Hl Hw]]]] He.
   destruct (del_from_bucket_settled c hash t b s e St He) as [St' [Hhp Hh]].
   cbv zeta in *. split; [|split; [apply lim_same_del|split; [exact Hhp|exact Hh]]].
-  split; [exact St'|]. split; [|split; [lia|]].
+  split; [exact St'|]. split; [|split; [lia|split]].
   - apply (counted_del_from_bucket_settled c hash t b s e St Ct He).
   - rewrite (del_from_bucket_locks_length c t b s (se_locks _ _ _ St)). exact Hl.
+  - apply (within_same t _); [reflexivity|exact Hhp|exact Hw].
 Qed.
 
 Lemma good_add t b s k v :
@@ -562,13 +601,14 @@ Lemma good_add t b s k v :
   bget (cur t') b s = Some {| ekey := k; eval := v; epart := partial_key (hash k); ehusk := false |} /\
   (forall k' v', holds (cur t') k' v' <-> (k' = k /\ v' = v) \/ (k' <> k /\ holds (cur t) k' v')).
 Proof.
-  intros [St [Ct [Hb Hl]]] Hg Hcand Hs Hk.
+  intros [St [Ct [Hb [Hl Hw]]]] Hg Hcand Hs Hk.
   assert (Hr : b < 2 ^ bhp (cur t)) by (apply (cand_range c hash t k b (se_arr _ _ _ St) Hcand)).
   destruct (add_to_bucket_settled c hash t b s k v St Hg Hr Hs Hcand Hk) as [St' [Hhp Hh]].
   cbv zeta in *. split; [|split; [apply lim_same_add|split; [exact Hhp|split; [|exact Hh]]]].
-  - split; [exact St'|]. split; [|split; [lia|]].
+  - split; [exact St'|]. split; [|split; [lia|split]].
     + apply (counted_add_to_bucket_settled c hash t b s _ k v St Ct Hr Hs Hg).
     + rewrite (add_to_bucket_locks_length c t b s _ k v (se_locks _ _ _ St)). exact Hl.
+    + apply (within_same t _); [reflexivity|exact Hhp|exact Hw].
   - rewrite cur_add_to_bucket. apply bget_bset_eq.
 Qed.
 
@@ -624,7 +664,7 @@ Qed.
 Definition up_post (t : table) (k : N) (v : Z) (g : Z -> bool -> option (Z * bool)) (t' : table)
   (r : ures) : Prop :=
   match r with
-  | inl e => ~ key_in (cur t) k /\ exn_ok true t e /\ fail_ok t t'
+  | inl e => ~ key_in (cur t) k /\ exn_ok true t t' e /\ fail_ok t t'
   | inr (ins, log, (b, s)) =>
       good t' /\ lim_same t t' /\ bhp (cur t) <= bhp (cur t') /\
       exists cv,
@@ -642,25 +682,43 @@ Proof.
   intros H U k' v'. rewrite (U k' v'), (H k' v'). reflexivity.
 Qed.
 
-(* item 3 (generic): any member of the insert family, any expansion function *)
-Theorem uprase_with_good lim fd mode :
+Lemma uprase_f_finish fuel fd mode t k v g :
+  settled t ->
+  uprase_f fuel fd mode t k v g =
+  match cuckoo_insert_loop c hash fd mode t k (i1_of hash (bhp (cur t)) k) (i2_of hash (bhp (cur t)) k) fuel with
+  | (t2, IL_exn e) => (t2, inl e)
+  | (t2, IL_pos pos _ _) =>
+    match pstatus pos with
+    | St_ok => finish (add_to_bucket c t2 (pindex pos) (pslot pos) (partial_key (hash k)) k v)
+                      (pindex pos) (pslot pos) true g
+    | _ => finish t2 (pindex pos) (pslot pos) false g
+    end
+  end.
+Proof.
+  intro St. unfold uprase_f.
+  rewrite (snapshot_and_lock_two_settled c hash mode t k (se_mig _ _ _ St)). rewrite hashpower_eq.
+  destruct (cuckoo_insert_loop c hash fd mode t k (i1_of hash (bhp (cur t)) k)
+              (i2_of hash (bhp (cur t)) k) fuel) as [t2 [pos j1 j2|e]]; [|reflexivity].
+  destruct (pstatus pos); reflexivity.
+Qed.
+
+(* item 3 (generic): any member of the insert family, any expansion function, any positive fuel *)
+Theorem uprase_f_good lim fd mode n :
   fd_ok lim fd mode ->
   forall t k v g, good t -> lim (mhp t) ->
-  forall t' r, uprase_with fd mode t k v g = (t', r) ->
+  forall t' r, uprase_f (S n) fd mode t k v g = (t', r) ->
   (key_in (cur t) k -> up_post t k v g t' r) /\
   (~ key_in (cur t) k -> esc t \/ up_post t k v g t' r).
 Proof.
   intros Hfd t k v g G Hl t' r E.
   assert (St : settled t) by (destruct G as [St _]; exact St).
-  unfold uprase_with in E.
-  rewrite (snapshot_and_lock_two_settled c hash mode t k (se_mig _ _ _ St)) in E.
-  rewrite hashpower_eq in E. change insert_loop_fuel with (S 69) in E.
+  rewrite (uprase_f_finish (S n) fd mode t k v g St) in E.
   destruct (cuckoo_insert_loop c hash fd mode t k (i1_of hash (bhp (cur t)) k)
-              (i2_of hash (bhp (cur t)) k) (S 69)) as [t2 res] eqn:El.
+              (i2_of hash (bhp (cur t)) k) (S n)) as [t2 res] eqn:El.
   split.
   - intro Hk.
-    destruct (insert_loop_present fd mode t k 69 G Hk t2 res El) as [pos [-> [Ev [Hhp [Hs [e [He Hek]]]]]]].
-    rewrite Hs in E. cbv zeta in E. fold (finish t2 (pindex pos) (pslot pos) false g) in E.
+    destruct (insert_loop_present fd mode t k n G Hk t2 res El) as [pos [-> [Ev [Hhp [Hs [e [He Hek]]]]]]].
+    rewrite Hs in E.
     destruct (finish_good t2 (pindex pos) (pslot pos) e false g (evolves_good _ _ Ev) He)
       as [t5 [Ef [G5 [L5 [Hhp5 [Hu Hp]]]]]].
     rewrite Ef in E. injection E as <- <-. unfold up_post. rewrite Hek in Hu, Hp.
@@ -671,19 +729,18 @@ Proof.
       repeat split; assumption.
     + split; [reflexivity|]. split; [|exact Hp]. eapply upd_holds_pre; eassumption.
   - intro Hk.
-    assert (Hil := insert_loop_absent lim fd mode Hfd (S 69) t k G Hl Hk t2 res El).
+    assert (Hil := insert_loop_absent lim fd mode Hfd (S n) t k G Hl Hk t2 res El).
     destruct Hil as [He|Hil]; [left; exact He|right].
     destruct res as [pos j1 j2|e].
     2:{ injection E as <- <-. exact Hil. }
     destruct Hil as [Ev [_ [_ [[_ [Hin _]]|[Hs [_ [Hg [Hcand Hslot]]]]]]]]; [contradiction|].
-    rewrite Hs in E. cbv zeta in E. unfold hashed_partial in E.
+    rewrite Hs in E.
     assert (G2 := evolves_good _ _ Ev).
     assert (Hk2 : ~ key_in (cur t2) k).
     { intro H. apply Hk. apply (evolves_key_in t t2 k Ev). exact H. }
     destruct (good_add t2 (pindex pos) (pslot pos) k v G2 Hg Hcand Hslot Hk2)
       as [G3 [L3 [Hhp3 [He3 Hh3]]]]. cbv zeta in G3, L3, Hhp3, He3, Hh3.
     set (t3 := add_to_bucket c t2 (pindex pos) (pslot pos) (partial_key (hash k)) k v) in *.
-    fold (finish t3 (pindex pos) (pslot pos) true g) in E.
     destruct (finish_good t3 (pindex pos) (pslot pos) _ true g G3 He3)
       as [t5 [Ef [G5 [L5 [Hhp5 [Hu Hp]]]]]]. cbn [ekey eval] in Ef, Hu, Hp.
     rewrite Ef in E. injection E as <- <-. unfold up_post.
@@ -697,4 +754,925 @@ Proof.
     + intros [[Hne H]|H]; [left; split; [exact Hne|right; split; assumption]|right; exact H].
 Qed.
 
+Lemma insert_loop_fuel_S : insert_loop_fuel = S 69.
+Proof. reflexivity. Qed.
+
+Theorem uprase_with_good lim fd mode :
+  fd_ok lim fd mode ->
+  forall t k v g, good t -> lim (mhp t) ->
+  forall t' r, uprase_with fd mode t k v g = (t', r) ->
+  (key_in (cur t) k -> up_post t k v g t' r) /\
+  (~ key_in (cur t) k -> esc t \/ up_post t k v g t' r).
+Proof.
+  unfold uprase_with. rewrite insert_loop_fuel_S. apply uprase_f_good.
+Qed.
+
+(* ================================================================== F. items 2 and 3 for nothrow types *)
+
+Lemma esc_capped t : mhp t <= 59 -> ~ esc t.
+Proof. intros H [tm [_ [_ H60]]]. lia. Qed.
+
+Lemma immediate_lim mode t t' : lim_same t t' -> immediate mode t -> immediate mode t'.
+Proof.
+  intros [_ [_ [E _]]] [H|H]; [left; exact H|right]. rewrite E. exact H.
+Qed.
+
+Lemma fd_ok_cuckoo_fast_double mode :
+  nothrow c = true ->
+  fd_ok (fun x => mode = true \/ x <= lbits c) (cuckoo_fast_double c hash) mode.
+Proof. intro Hnt. exact (fd_ok_nothrow 5 mode Hnt). Qed.
+
+(* item 2 *)
+Theorem cuckoo_insert_loop_good mode fuel t k :
+  nothrow c = true -> good t -> immediate mode t ->
+  forall t' res,
+  cuckoo_insert_loop c hash (cuckoo_fast_double c hash) mode t k
+    (i1_of hash (bhp (cur t)) k) (i2_of hash (bhp (cur t)) k) (S fuel) = (t', res) ->
+  esc t \/
+  (evolves t t' /\ immediate mode t' /\
+   match res with
+   | IL_pos pos j1 j2 =>
+       j1 = i1_of hash (bhp (cur t')) k /\ j2 = i2_of hash (bhp (cur t')) k /\
+       ((pstatus pos = St_duplicated /\ key_in (cur t) k /\ bhp (cur t') = bhp (cur t) /\
+         exists e, bget (cur t') (pindex pos) (pslot pos) = Some e /\ ekey e = k) \/
+        (pstatus pos = St_ok /\ ~ key_in (cur t) k /\
+         bget (cur t') (pindex pos) (pslot pos) = None /\
+         cand hash (bhp (cur t')) k (pindex pos) /\ pslot pos < spb c))
+   | IL_exn e => ~ key_in (cur t) k /\ exn_ok true t t' e
+   end).
+Proof.
+  intros Hnt G Him t' res E.
+  destruct (insert_loop_gen _ _ mode (fd_ok_cuckoo_fast_double mode Hnt) fuel t k G Him t' res E)
+    as [He|H]; [left; exact He|right].
+  destruct res as [pos j1 j2|e].
+  - destruct H as [Ev H]. split; [exact Ev|].
+    split; [exact (immediate_lim mode t t' (evolves_lim _ _ Ev) Him)|exact H].
+  - destruct H as [Hk [He Hf]]. assert (Ev : evolves t t') by (apply Hf; left; exact Hnt).
+    split; [exact Ev|]. split; [exact (immediate_lim mode t t' (evolves_lim _ _ Ev) Him)|].
+    split; assumption.
+Qed.
+
+(* item 3: every member of the insert family (insert, insert_or_assign, upsert, uprase_fn,
+   locked_table::insert, operator[]) is uprase_gen with some g *)
+Theorem uprase_gen_good mode t k v g :
+  nothrow c = true -> good t -> immediate mode t ->
+  forall t' r, uprase_gen c hash mode t k v g = (t', r) ->
+  (forall v0, holds (cur t) k v0 ->
+     exists b s, r = inr (false, log_of g v0 false, (b, s)) /\
+       good t' /\ lim_same t t' /\ immediate mode t' /\ bhp (cur t') = bhp (cur t) /\
+       upd_holds (cur t) (cur t') k (final_of g v0 false) /\
+       (forall vf, final_of g v0 false = Some vf ->
+          exists e, bget (cur t') b s = Some e /\ ekey e = k /\ eval e = vf)) /\
+  (~ key_in (cur t) k ->
+     esc t \/
+     (exists e, r = inl e /\ exn_ok true t t' e /\ evolves t t' /\ immediate mode t') \/
+     (exists b s, r = inr (true, log_of g v true, (b, s)) /\
+        good t' /\ lim_same t t' /\ immediate mode t' /\ bhp (cur t) <= bhp (cur t') /\
+        upd_holds (cur t) (cur t') k (final_of g v true) /\
+        (forall vf, final_of g v true = Some vf ->
+           exists e, bget (cur t') b s = Some e /\ ekey e = k /\ eval e = vf))).
+Proof.
+  intros Hnt G Him t' r E. rewrite uprase_gen_eq in E.
+  destruct (uprase_with_good _ _ mode (fd_ok_cuckoo_fast_double mode Hnt) t k v g G Him t' r E)
+    as [Hin Hout].
+  assert (St : settled t) by (destruct G as [St _]; exact St).
+  split.
+  - intros v0 Hv0.
+    assert (Hk : key_in (cur t) k) by (apply key_in_holds; exists v0; exact Hv0).
+    specialize (Hin Hk). unfold up_post in Hin.
+    destruct r as [e|[[ins lg] [b s]]]; [destruct Hin as [Hn _]; contradiction|].
+    destruct Hin as [G' [L [Hb [cv [Hcase [Hlg [Hu Hp]]]]]]].
+    destruct Hcase as [[-> [Hcv Hhp]]|[_ [Hn _]]]; [|contradiction].
+    assert (cv = v0) by (apply (holds_fun c hash _ _ _ _ (se_arr _ _ _ St) Hcv Hv0)). subst cv.
+    exists b, s. split; [rewrite Hlg; reflexivity|]. split; [exact G'|]. split; [exact L|].
+    split; [exact (immediate_lim mode t t' L Him)|]. split; [exact Hhp|]. split; assumption.
+  - intro Hk. destruct (Hout Hk) as [He|Hp]; [left; exact He|right]. unfold up_post in Hp.
+    destruct r as [e|[[ins lg] [b s]]].
+    + left. destruct Hp as [_ [He Hf]]. assert (Ev : evolves t t') by (apply Hf; left; exact Hnt).
+      exists e. split; [reflexivity|]. split; [exact He|]. split; [exact Ev|].
+      exact (immediate_lim mode t t' (evolves_lim _ _ Ev) Him).
+    + right. destruct Hp as [G' [L [Hb [cv [Hcase [Hlg [Hu Hp]]]]]]].
+      destruct Hcase as [[_ [Hcv _]]|[-> [_ ->]]].
+      { exfalso. apply Hk. apply key_in_holds. exists cv. exact Hcv. }
+      exists b, s. split; [rewrite Hlg; reflexivity|]. split; [exact G'|]. split; [exact L|].
+      split; [exact (immediate_lim mode t t' L Him)|]. split; [exact Hb|]. split; assumption.
+Qed.
+
+(* ================================================================== G. clear *)
+
+(* item 6 *)
+Theorem cuckoo_clear_good t :
+  good t ->
+  good (cuckoo_clear t) /\ (forall k v, ~ holds (cur (cuckoo_clear t)) k v) /\
+  lim_same t (cuckoo_clear t) /\ bhp (cur (cuckoo_clear t)) = bhp (cur t) /\
+  tsize (cuckoo_clear t) = 0.
+Proof.
+  intros [St [Ct [Hb [Hl Hw]]]].
+  assert (Hn := se_locks _ _ _ St).
+  assert (Hg : forall b s, bget (cur (cuckoo_clear t)) b s = None).
+  { intros b s. rewrite cuckoo_clear_cur. apply bget_bclear. }
+  assert (Hhp : bhp (cur (cuckoo_clear t)) = bhp (cur t)) by (rewrite cuckoo_clear_cur; reflexivity).
+  assert (Hcl := cuckoo_clear_cur_locks t Hn).
+  split; [|split; [|split; [repeat split|split; [exact Hhp|apply cuckoo_clear_tsize]]]].
+  - split; [|split; [apply counted_cuckoo_clear; exact Hn|split; [lia|split]]].
+    + constructor.
+      * constructor.
+        -- rewrite Hhp. apply (ao_hp _ _ _ (se_arr _ _ _ St)).
+        -- intros b s e H. rewrite Hg in H. discriminate.
+        -- intros b s e H. rewrite Hg in H. discriminate.
+        -- intros b s e H. rewrite Hg in H. discriminate.
+        -- intros b s e H. rewrite Hg in H. discriminate.
+        -- intros b s e b' s' e' H. rewrite Hg in H. discriminate.
+      * rewrite cuckoo_clear_cur. apply (se_alive _ _ _ St).
+      * intros l Hin. rewrite Hcl in Hin. apply in_map_iff in Hin. destruct Hin as [x [<- _]]. reflexivity.
+      * apply cuckoo_clear_locks_nonnil. exact Hn.
+      * intros b Hlt. rewrite Hcl, map_length. apply (se_cover _ _ _ St). rewrite <- Hhp. exact Hlt.
+    + rewrite Hcl, map_length. exact Hl.
+    + apply (within_same t _); [reflexivity|exact Hhp|exact Hw].
+  - intros k v [b [s [e [H _]]]]. rewrite Hg in H. discriminate.
+Qed.
+
+(* ================================================================== H. iteration *)
+
+Definition kvs (o : list rv) : list (N * Z) :=
+  flat_map (fun r => match r with RKV k v => [(k, v)] | _ => [] end) o.
+
+Definition kv_at (a : barray) (p : N * N) : N * Z :=
+  match bget a (fst p) (snd p) with Some e => (ekey e, eval e) | None => (0, 0%Z) end.
+
+Lemma kvs_visits t : forall l,
+  (forall p, In p l -> In p (occ_list c (cur t))) ->
+  kvs (flat_map (visit t) l) = map (kv_at (cur t)) l.
+Proof.
+  induction l as [|p l IH]; intro Hl; [reflexivity|].
+  cbn [flat_map map]. unfold kvs in *. rewrite flat_map_app. rewrite IH by (intros q Hq; apply Hl; right; exact Hq).
+  destruct (visit_occ c t p (Hl p (or_introl eq_refl))) as [e [He Hv]].
+  rewrite Hv. unfold kv_at. rewrite He. reflexivity.
+Qed.
+
+Lemma map_fst_kv_at a l : map fst (map (kv_at a) l) = map (key_at a) l.
+Proof.
+  rewrite map_map. apply map_ext. intro p. unfold kv_at, key_at.
+  destruct (bget a (fst p) (snd p)); reflexivity.
+Qed.
+
+(* item 7: a forward traversal reports exactly the contents, each key once *)
+Theorem traverse_fwd_good t :
+  good t ->
+  let out := traverse_fwd c t (it_begin c t) (trav_fuel c t) in
+  (forall k v, In (RKV k v) out <-> holds (cur t) k v) /\
+  (forall k v, In (k, v) (kvs out) <-> holds (cur t) k v) /\
+  NoDup (map fst (kvs out)) /\
+  length (kvs out) = count_arr c (cur t).
+Proof.
+  intros [St [_ [Hb _]]] out. assert (Ha := se_arr _ _ _ St).
+  assert (Hhp : hashpower t < 62) by (rewrite hashpower_eq; lia).
+  assert (Eo : out = flat_map (visit t) (occ_list c (cur t))).
+  { unfold out. apply traverse_fwd_spec; [apply (co_spb _ Hc)|exact Hhp]. }
+  assert (Ek : kvs out = map (kv_at (cur t)) (occ_list c (cur t))).
+  { rewrite Eo. apply kvs_visits. intros p Hp. exact Hp. }
+  assert (Hkv : forall k v, In (k, v) (kvs out) <-> holds (cur t) k v).
+  { intros k v. rewrite Ek, in_map_iff. split.
+    - intros [p [Hkv Hp]]. destruct (occ_in_range c t p Hp) as [_ [_ [e He]]].
+      unfold kv_at in Hkv. rewrite He in Hkv. injection Hkv as <- <-.
+      exists (fst p), (snd p), e. repeat split. exact He.
+    - intros [b [s [e [He [Hk Hv]]]]]. exists (b, s). split.
+      + unfold kv_at. cbn [fst snd]. rewrite He, Hk, Hv. reflexivity.
+      + apply In_occ_list. cbn [fst snd]. destruct (ao_range _ _ _ Ha _ _ _ He) as [H1 H2].
+        split; [exact H1|]. split; [exact H2|]. apply occupied_true. exists e. exact He. }
+  split; [|split; [exact Hkv|split]].
+  - intros k v. rewrite <- Hkv. unfold kvs. rewrite in_flat_map. split.
+    + intro H. exists (RKV k v). split; [exact H|left; reflexivity].
+    + intros [r [Hr Hin]]. destruct r; cbn in Hin; try contradiction.
+      destruct Hin as [Hin|[]]. injection Hin as <- <-. exact Hr.
+  - rewrite Ek, map_fst_kv_at. apply NoDup_keys_of. exact Ha.
+  - rewrite Ek, map_length. reflexivity.
+Qed.
+
+(* ================================================================== I. the rebuild (cuckoo_expand_simple) *)
+
+(* the temporary map runs in normal mode: its doublings are immediate only below the stripe count;
+   58 is the model's bound on rebuild targets *)
+Definition limC (x : N) : Prop := x <= lbits c /\ x <= 58.
+
+Lemma good_ext_w t t' :
+  cur t' = cur t -> locks t' = locks t -> good t -> within t' -> good t'.
+Proof.
+  intros Ec El [St [Ct [Hb [Hl _]]]] Hw.
+  assert (Hcl : cur_locks t' = cur_locks t) by (apply cur_locks_locks; exact El).
+  split; [|split; [|split; [|split]]].
+  - constructor.
+    + rewrite Ec. apply (se_arr _ _ _ St).
+    + rewrite Ec. apply (se_alive _ _ _ St).
+    + apply (all_migrated_locks t t' El). apply (se_mig _ _ _ St).
+    + rewrite El. apply (se_locks _ _ _ St).
+    + rewrite Ec, Hcl. apply (se_cover _ _ _ St).
+  - unfold InvDefs.counted in *. rewrite Hcl, Ec. exact Ct.
+  - rewrite Ec. exact Hb.
+  - rewrite Hcl. exact Hl.
+  - exact Hw.
+Qed.
+
+Lemma good_ext t t' :
+  cur t' = cur t -> locks t' = locks t -> mhp t' = mhp t -> good t -> good t'.
+Proof.
+  intros Ec El Em G. apply (good_ext_w t t' Ec El G).
+  apply (within_same t t' Em); [rewrite Ec; reflexivity|]. destruct G as [_ [_ [_ [_ Hw]]]]. exact Hw.
+Qed.
+
+Lemma rehash_with_workers_good t :
+  good t ->
+  let t1 := rehash_with_workers c hash t in
+  good t1 /\ cur t1 = cur t /\ locks t1 = locks t /\ lim_same t t1 /\ rc t1 = rc t.
+Proof.
+  intro G. assert (St : settled t) by (destruct G as [St _]; exact St).
+  unfold rehash_with_workers. rewrite (rehash_all_settled c hash _ t 0 (se_mig _ _ _ St)).
+  destruct (set_nrem_fields t 0) as [E1 [E2 [E3 [E4 [E5 [E6 [E7 E8]]]]]]].
+  cbv zeta. split; [apply (good_ext t _ E1 E2 E7 G)|]. split; [exact E1|]. split; [exact E2|].
+  split; [|exact E4]. repeat split; assumption.
+Qed.
+
+Lemma reserve_calc_pow hp : hp <= 58 -> reserve_calc c (wrap64 (hashsize hp * spb c)) = hp.
+Proof.
+  intro H. assert (Hs := co_spb _ Hc). assert (Hs8 := co_spb_max _ Hc).
+  rewrite hashsize_spec by lia.
+  assert (Hp : 2 ^ hp <= 2 ^ 58) by (apply pow2_le_mono; exact H).
+  assert (Hpp := pow2_pos hp).
+  assert (Hn : 2 ^ hp * spb c <= 2 ^ 58 * 8) by (apply N.mul_le_mono; assumption).
+  change (2 ^ 58 * 8) with 2305843009213693952 in Hn.
+  unfold wrap64. rewrite wrap_small by (change (2 ^ 64) with 18446744073709551616; lia).
+  destruct (reserve_calc_spec c (2 ^ hp * spb c) Hs) as [H1 [H2 _]].
+  - change (2 ^ 64) with 18446744073709551616. lia.
+  - apply N.mul_le_mono_r. apply pow2_le_mono. lia.
+  - set (r := reserve_calc c (2 ^ hp * spb c)) in *.
+    apply N.le_antisymm.
+    + destruct (N.le_gt_cases r hp) as [L|L]; [exact L|]. specialize (H2 hp L). lia.
+    + destruct (N.le_gt_cases hp r) as [L|L]; [exact L|]. exfalso.
+      assert (Hlt := pow2_lt_mono r hp L).
+      apply N.mul_le_mono_pos_r in H1; [|exact Hs]. lia.
+Qed.
+
+(* the temporary map of a rebuild *)
+Definition new_map (auto : bool) (t1 : table) (new_hp : N) : table :=
+  let nm00 := set_workers (new_table c (wrap64 (hashsize new_hp * spb c))) (workers t1) in
+  let nm01 := if auto then set_mlf nm00 (mlfn t1) (mlfd t1) else set_mlf nm00 0 1 in
+  set_mhp nm01 (mhp t1).
+
+Lemma new_map_good auto t1 new_hp :
+  new_hp <= 58 -> mhp t1 = NO_MAXIMUM_HASHPOWER \/ new_hp <= mhp t1 ->
+  let nm := new_map auto t1 new_hp in
+  good nm /\ bhp (cur nm) = new_hp /\ mhp nm = mhp t1 /\
+  mlfn nm = (if auto then mlfn t1 else 0) /\ (forall k v, ~ holds (cur nm) k v).
+Proof.
+  intros H58 Hmax. cbv zeta.
+  set (n := wrap64 (hashsize new_hp * spb c)).
+  assert (Er : reserve_calc c n = new_hp) by (apply reserve_calc_pow; exact H58).
+  assert (Hr62 : reserve_calc c n < 62) by lia.
+  destruct (new_table_ok c hash n Hc Hr62) as [St [Ct [_ [_ Hhp]]]].
+  rewrite hashpower_eq, Er in Hhp.
+  assert (Ec : cur (new_map auto t1 new_hp) = cur (new_table c n)) by (destruct auto; reflexivity).
+  assert (El : locks (new_map auto t1 new_hp) = locks (new_table c n)) by (destruct auto; reflexivity).
+  assert (Em : mhp (new_map auto t1 new_hp) = mhp t1) by (destruct auto; reflexivity).
+  assert (Hw : within (new_map auto t1 new_hp)).
+  { unfold within. rewrite Em, Ec, Hhp. exact Hmax. }
+  assert (G0 : good (new_table c n)).
+  { split; [exact St|]. split; [exact Ct|]. split; [lia|]. split.
+    - rewrite new_table_cur_locks, repeat_length. lia.
+    - left. reflexivity. }
+  split; [apply (good_ext_w _ _ Ec El G0 Hw)|]. split; [rewrite Ec; exact Hhp|]. split; [exact Em|].
+  split; [destruct auto; reflexivity|].
+  intros k v [b [s [e [He _]]]]. rewrite Ec in He.
+  change (cur (new_table c n)) with (bnew (reserve_calc c n)) in He. rewrite bget_bnew in He. discriminate.
+Qed.
+
+(* one insertion into the temporary map *)
+Lemma insert_with_good lim fd :
+  fd_ok lim fd false ->
+  forall nm k v, good nm -> lim (mhp nm) -> mhp nm <= 59 -> ~ key_in (cur nm) k ->
+  forall nm' r, insert_with c hash fd nm k v = (nm', r) ->
+  match r with
+  | Some e => exn_ok true nm nm' e /\ fail_ok nm nm'
+  | None =>
+      good nm' /\ lim_same nm nm' /\ bhp (cur nm) <= bhp (cur nm') /\
+      forall k' v', holds (cur nm') k' v' <-> (k' = k /\ v' = v) \/ (k' <> k /\ holds (cur nm) k' v')
+  end.
+Proof.
+  intros Hfd nm k v G Hl Hcap Hk nm' r E. rewrite insert_with_eq in E.
+  destruct (uprase_with fd false nm k v (fun _ _ => None)) as [t' ur] eqn:Eu.
+  destruct (uprase_with_good lim fd false Hfd nm k v _ G Hl t' ur Eu) as [_ Hout].
+  destruct (Hout Hk) as [He|Hp]; [exfalso; exact (esc_capped nm Hcap He)|].
+  unfold up_post in Hp. destruct ur as [e|[[ins lg] [b s]]]; injection E as <- <-.
+  - destruct Hp as [_ [He Hf]]. split; assumption.
+  - destruct Hp as [G' [L [Hb [cv [Hcase [_ [Hu _]]]]]]].
+    split; [exact G'|]. split; [exact L|]. split; [exact Hb|].
+    destruct Hcase as [[_ [Hcv _]]|[-> [_ ->]]].
+    { exfalso. apply Hk. apply key_in_holds. exists cv. exact Hcv. }
+    change (final_of (fun _ _ => None) v true) with (Some v) in Hu.
+    intros k' v'. rewrite (Hu k' v'). split.
+    + intros [[Hne H]|[E H]]; [right; split; assumption|left].
+      injection H as <-. split; [exact E|reflexivity].
+    + intros [[E1 E2]|[Hne H]]; [right; split; [exact E1|rewrite E2; reflexivity]|left; split; assumption].
+Qed.
+
+(* positions before the frontier, in (bucket, slot) order *)
+Definition plt (p q : N * N) : Prop := fst p < fst q \/ (fst p = fst q /\ snd p < snd q).
+
+Lemma plt_weaken b s p : plt p (b, s) -> plt p (b, s + 1).
+Proof. unfold plt. cbn [fst snd]. lia. Qed.
+
+Lemma plt_succ_inv b s b' s' : plt (b', s') (b, s + 1) -> plt (b', s') (b, s) \/ (b' = b /\ s' = s).
+Proof. unfold plt. cbn [fst snd]. lia. Qed.
+
+Lemma plt_irrefl p : ~ plt p p.
+Proof. unfold plt. lia. Qed.
+
+(* the state of the move loop: everything before the frontier has been inserted into nm *)
+Record xinv (a0 : barray) (nm0 : table) (fr : N * N) (src : barray) (nm : table) : Prop := {
+  xv_good : good nm;
+  xv_lim : lim_same nm0 nm;
+  xv_hp : bhp (cur nm0) <= bhp (cur nm);
+  xv_holds : forall k v, holds (cur nm) k v <->
+      exists b s e, plt (b, s) fr /\ bget a0 b s = Some e /\ ekey e = k /\ eval e = v;
+  xv_rest : forall b s, ~ plt (b, s) fr -> bget src b s = bget a0 b s;
+  xv_nd : destructive c = false -> forall b s, bget src b s = bget a0 b s;
+  xv_hpsrc : bhp src = bhp a0;
+  xv_dead : bdead src = bdead a0
+}.
+
+Definition xfail (a0 : barray) (nm0 : table) (src' : barray) (ex : exn) : Prop :=
+  exn_ok0 true nm0 ex /\ bhp src' = bhp a0 /\ bdead src' = bdead a0 /\
+  (destructive c = false -> forall b s, bget src' b s = bget a0 b s).
+
+Lemma expand_move_slots_inv lim fd a0 nm0 b :
+  fd_ok lim fd false -> arr_ok a0 -> lim (mhp nm0) -> mhp nm0 <= 59 ->
+  forall n s src nm, s + N.of_nat n = spb c -> xinv a0 nm0 (b, s) src nm ->
+  forall src' nm' r,
+  expand_move_slots c (insert_with c hash fd) src nm b s n = (src', nm', r) ->
+  match r with
+  | None => xinv a0 nm0 (b, spb c) src' nm'
+  | Some ex => xfail a0 nm0 src' ex
+  end.
+Proof.
+  intros Hfd Ha0 Hl0 Hcap. induction n as [|n IH]; intros s src nm Hs X src' nm' r E.
+  - cbn [expand_move_slots] in E. injection E as <- <- <-. replace (spb c) with s by lia. exact X.
+  - cbn [expand_move_slots] in E.
+    assert (Hnot : ~ plt (b, s) (b, s)) by apply plt_irrefl.
+    assert (Hsrc : bget src b s = bget a0 b s) by (apply (xv_rest _ _ _ _ _ X); exact Hnot).
+    destruct (bget src b s) as [e|] eqn:Eb.
+    + symmetry in Hsrc.
+      assert (Hk : ~ key_in (cur nm) (ekey e)).
+      { intro Hin. apply key_in_holds in Hin. destruct Hin as [v' Hv'].
+        apply (xv_holds _ _ _ _ _ X) in Hv'. destruct Hv' as [b' [s' [e' [Hlt [He' [Hk' _]]]]]].
+        destruct (ao_uniq _ _ _ Ha0 _ _ _ _ _ _ He' Hsrc Hk') as [-> ->]. exact (Hnot Hlt). }
+      assert (G := xv_good _ _ _ _ _ X). assert (L := xv_lim _ _ _ _ _ X).
+      assert (Hm : mhp nm = mhp nm0) by (destruct L as [_ [_ [Hm _]]]; exact Hm).
+      assert (Hl : lim (mhp nm)) by (rewrite Hm; exact Hl0).
+      assert (Hcap' : mhp nm <= 59) by (rewrite Hm; exact Hcap).
+      destruct (insert_with c hash fd nm (ekey e) (eval e)) as [nm1 r1] eqn:Ei.
+      assert (Hi := insert_with_good lim fd Hfd nm (ekey e) (eval e) G Hl Hcap' Hk nm1 r1 Ei).
+      set (src1 := bset src b s (Some (husk_of c e))) in *.
+      assert (Hnd1 : destructive c = false -> forall b' s', bget src1 b' s' = bget a0 b' s').
+      { intros Hd b' s'. unfold src1, husk_of. rewrite Hd.
+        destruct (bget_bset_cases src b s (Some e) b' s') as [[-> [-> H]]|[Hne H]]; rewrite H.
+        - symmetry. exact Hsrc.
+        - apply (xv_nd _ _ _ _ _ X Hd). }
+      assert (Hhp1 : bhp src1 = bhp a0) by (unfold src1; rewrite bhp_bset; apply (xv_hpsrc _ _ _ _ _ X)).
+      assert (Hdd1 : bdead src1 = bdead a0) by (unfold src1; rewrite bdead_bset; apply (xv_dead _ _ _ _ _ X)).
+      destruct r1 as [ex|].
+      * injection E as <- <- <-. destruct Hi as [Hex _].
+        split; [eapply exn_ok0_lim; [exact L|exact (proj1 Hex)]|]. split; [exact Hhp1|]. split; [exact Hdd1|exact Hnd1].
+      * destruct Hi as [G1 [L1 [Hb1 Hh1]]].
+        apply (IH (s + 1) src1 nm1); [lia| |exact E]. constructor.
+        -- exact G1.
+        -- exact (lim_same_trans _ _ _ L L1).
+        -- assert (Hx := xv_hp _ _ _ _ _ X). lia.
+        -- intros k v. rewrite (Hh1 k v). split.
+           ++ intros [[-> ->]|[Hne H]].
+              ** exists b, s, e. split; [unfold plt; cbn [fst snd]; lia|]. split; [exact Hsrc|]. split; reflexivity.
+              ** apply (xv_holds _ _ _ _ _ X) in H. destruct H as [b' [s' [e' [Hlt H]]]].
+                 exists b', s', e'. split; [apply plt_weaken; exact Hlt|exact H].
+           ++ intros [b' [s' [e' [Hlt [He' [Hk' Hv']]]]]].
+              destruct (plt_succ_inv b s b' s' Hlt) as [Hlt'|[-> ->]].
+              ** right. split.
+                 { intro Ek. rewrite <- Hk' in Ek.
+                   destruct (ao_uniq _ _ _ Ha0 _ _ _ _ _ _ He' Hsrc Ek) as [-> ->]. exact (Hnot Hlt'). }
+                 apply (xv_holds _ _ _ _ _ X). exists b', s', e'.
+                 split; [exact Hlt'|]. split; [exact He'|]. split; assumption.
+              ** left. rewrite Hsrc in He'. injection He' as <-. split; symmetry; assumption.
+        -- intros b' s' Hn. unfold src1.
+           destruct (bget_bset_cases src b s (Some (husk_of c e)) b' s') as [[-> [-> H]]|[Hne H]].
+           ++ exfalso. apply Hn. unfold plt. cbn [fst snd]. lia.
+           ++ rewrite H. apply (xv_rest _ _ _ _ _ X). intro Hlt. apply Hn. apply plt_weaken. exact Hlt.
+        -- exact Hnd1.
+        -- exact Hhp1.
+        -- exact Hdd1.
+    + apply (IH (s + 1) src nm); [lia| |exact E]. constructor.
+      * apply (xv_good _ _ _ _ _ X).
+      * apply (xv_lim _ _ _ _ _ X).
+      * apply (xv_hp _ _ _ _ _ X).
+      * intros k v. rewrite (xv_holds _ _ _ _ _ X k v).
+        split; intros [b' [s' [e' [Hlt H]]]]; exists b', s', e'.
+        -- split; [apply plt_weaken; exact Hlt|exact H].
+        -- split; [|exact H]. destruct (plt_succ_inv b s b' s' Hlt) as [Hlt'|[-> ->]]; [exact Hlt'|].
+           destruct H as [H _]. rewrite <- Hsrc in H. discriminate.
+      * intros b' s' Hn. apply (xv_rest _ _ _ _ _ X). intro Hlt. apply Hn. apply plt_weaken. exact Hlt.
+      * apply (xv_nd _ _ _ _ _ X).
+      * apply (xv_hpsrc _ _ _ _ _ X).
+      * apply (xv_dead _ _ _ _ _ X).
+Qed.
+
+Lemma xinv_next a0 nm0 b src nm :
+  arr_ok a0 -> xinv a0 nm0 (b, spb c) src nm -> xinv a0 nm0 (b + 1, 0) src nm.
+Proof.
+  intros Ha0 X. constructor.
+  - apply (xv_good _ _ _ _ _ X).
+  - apply (xv_lim _ _ _ _ _ X).
+  - apply (xv_hp _ _ _ _ _ X).
+  - intros k v. rewrite (xv_holds _ _ _ _ _ X k v).
+    split; intros [b' [s' [e' [Hlt [He' H]]]]]; exists b', s', e'.
+    + split; [|split; [exact He'|exact H]]. unfold plt in *. cbn [fst snd] in *. lia.
+    + split; [|split; [exact He'|exact H]]. destruct (ao_range _ _ _ Ha0 _ _ _ He') as [_ Hs].
+      unfold plt in *. cbn [fst snd] in *. lia.
+  - intros b' s' Hn. apply (xv_rest _ _ _ _ _ X). intro Hlt. apply Hn.
+    unfold plt in *. cbn [fst snd] in *. lia.
+  - apply (xv_nd _ _ _ _ _ X).
+  - apply (xv_hpsrc _ _ _ _ _ X).
+  - apply (xv_dead _ _ _ _ _ X).
+Qed.
+
+Lemma expand_move_buckets_inv lim fd a0 nm0 :
+  fd_ok lim fd false -> arr_ok a0 -> lim (mhp nm0) -> mhp nm0 <= 59 ->
+  forall n b src nm, b + N.of_nat n = 2 ^ bhp a0 -> xinv a0 nm0 (b, 0) src nm ->
+  forall src' nm' r,
+  expand_move_buckets c (insert_with c hash fd) src nm b n = (src', nm', r) ->
+  match r with
+  | None => xinv a0 nm0 (2 ^ bhp a0, 0) src' nm'
+  | Some ex => xfail a0 nm0 src' ex
+  end.
+Proof.
+  intros Hfd Ha0 Hl0 Hcap. induction n as [|n IH]; intros b src nm Hb X src' nm' r E.
+  - cbn [expand_move_buckets] in E. injection E as <- <- <-.
+    replace (2 ^ bhp a0) with b by lia. exact X.
+  - cbn [expand_move_buckets] in E.
+    destruct (expand_move_slots c (insert_with c hash fd) src nm b 0 (N.to_nat (spb c)))
+      as [[src1 nm1] r1] eqn:Es.
+    assert (Hs0 : 0 + N.of_nat (N.to_nat (spb c)) = spb c) by lia.
+    assert (Hs := expand_move_slots_inv lim fd a0 nm0 b Hfd Ha0 Hl0 Hcap (N.to_nat (spb c)) 0 src nm
+                    Hs0 X src1 nm1 r1 Es).
+    destruct r1 as [ex|].
+    + injection E as <- <- <-. exact Hs.
+    + apply (IH (b + 1) src1 nm1); [lia| |exact E]. apply xinv_next; assumption.
+Qed.
+
+(* the body of expand_simple_f at positive fuel, with the temporary map's expansion function
+   abstracted *)
+Definition es_body (fd : bool -> table -> N -> rres) (auto : bool) (t : table) (new_hp : N) : rres :=
+  let hp := hashpower t in
+  match check_resize_validity c auto t hp new_hp with
+  | inl (Some e) => (t, inl e)
+  | inl None => (t, inl EUnmodelled)
+  | inr St_ok =>
+    if 58 <? new_hp then (t, inl EUnmodelled) else
+    let t1 := rehash_with_workers c hash t in
+    let nm0 := new_map auto t1 new_hp in
+    let ins := insert_with c hash fd in
+    match expand_move_buckets c ins (cur t1) nm0 0 (N.to_nat (hashsize hp)) with
+    | (src', nm1, Some ex) => (set_cur t1 src', inl ex)
+    | (src', nm1, None) =>
+      let nm2 := rehash_with_workers c hash nm1 in
+      let t2 := maybe_resize_locks c t1 (bucket_count nm2) in
+      let t3 := set_cur t2 (cur nm2) in
+      (set_rc t3 (wrap64 (rc t3 + 1)), inr St_ok)
+    end
+  | inr st => (t, inr st)
+  end.
+
+Lemma expand_simple_f_S f auto mode t new_hp :
+  expand_simple_f c hash (S f) auto mode t new_hp = es_body (fast_double_f c hash f true) auto t new_hp.
+Proof. reflexivity. Qed.
+
+Lemma fast_double_f_S f auto mode t hp :
+  fast_double_f c hash (S f) auto mode t hp =
+  if negb (nothrow c) then expand_simple_f c hash f auto mode t (hp + 1)
+  else match check_resize_validity c auto t hp (hp + 1) with
+       | inl (Some e) => (t, inl e)
+       | inl None => (t, inl EUnmodelled)
+       | inr St_ok => (fast_double_body c hash mode t (hp + 1), inr St_ok)
+       | inr st => (t, inr st)
+       end.
+Proof. reflexivity. Qed.
+
+Lemma fast_double_f_S_throw f auto mode t hp :
+  nothrow c = false ->
+  fast_double_f c hash (S f) auto mode t hp = expand_simple_f c hash f auto mode t (hp + 1).
+Proof. intro H. rewrite fast_double_f_S, H. reflexivity. Qed.
+
+Lemma crv_self auto t n :
+  let r := check_resize_validity c auto t (hashpower t) n in
+  (maxed t n /\ r = inl (Some EMaxHashpower)) \/
+  (~ maxed t n /\ auto = true /\ lf_lt_mlf c t = true /\ r = inl (Some ELoadFactorTooLow)) \/
+  (~ maxed t n /\ (auto = true -> lf_lt_mlf c t = false) /\ r = inr St_ok).
+Proof.
+  cbv zeta. destruct (maxed_dec t n) as [Hm|Hm].
+  - left. split; [exact Hm|]. apply crv_maxhp_iff. exact Hm.
+  - right. destruct auto.
+    + destruct (lf_lt_mlf c t) eqn:Hlf.
+      * left. split; [exact Hm|]. split; [reflexivity|]. split; [reflexivity|].
+        apply crv_lf_iff. split; [exact Hm|]. split; [reflexivity|exact Hlf].
+      * right. split; [exact Hm|]. split; [reflexivity|].
+        apply crv_ok_intro; [|intros _; exact Hlf]. unfold maxed in Hm.
+        destruct (N.eq_dec (mhp t) NO_MAXIMUM_HASHPOWER) as [E|E]; [left; exact E|right].
+        destruct (N.le_gt_cases n (mhp t)) as [L|L]; [exact L|]. exfalso. apply Hm. split; assumption.
+    + right. split; [exact Hm|]. split; [intro H; discriminate|].
+      apply crv_ok_intro; [|intro H; discriminate]. unfold maxed in Hm.
+      destruct (N.eq_dec (mhp t) NO_MAXIMUM_HASHPOWER) as [E|E]; [left; exact E|right].
+      destruct (N.le_gt_cases n (mhp t)) as [L|L]; [exact L|]. exfalso. apply Hm. split; assumption.
+Qed.
+
+Definition es_post (auto : bool) (t : table) (new_hp : N) (r : rres) : Prop :=
+  match snd r with
+  | inr St_ok =>
+      good (fst r) /\ (forall k v, holds (cur (fst r)) k v <-> holds (cur t) k v) /\
+      lim_same t (fst r) /\ new_hp <= bhp (cur (fst r)) /\ rc (fst r) = wrap64 (rc t + 1) /\
+      ~ maxed t new_hp /\ (auto = true -> lf_lt_mlf c t = false)
+  | inr _ => False
+  | inl e =>
+      exn_ok0 auto t e /\
+      (destructive c = false -> evolves t (fst r) /\ bhp (cur (fst r)) = bhp (cur t))
+  end.
+
+Lemma es_body_good fd auto t new_hp :
+  fd_ok limC fd false -> good t -> limC (mhp t) ->
+  es_post auto t new_hp (es_body fd auto t new_hp).
+Proof.
+  intros Hfd G [Hlb H58]. unfold es_body. cbv zeta.
+  destruct (crv_self auto t new_hp) as [[Hm E]|[[Hm [Ha [Hlf E]]]|[Hm [Hlf E]]]];
+    cbv zeta in E; rewrite E; unfold es_post; cbn [fst snd].
+  - split; [left; split; [reflexivity|destruct Hm as [Hm _]; exact Hm]|].
+    intros _. split; [apply evolves_refl; exact G|reflexivity].
+  - split; [right; left; split; [reflexivity|split; [exact Ha|apply lf_true_mlfn; exact Hlf]]|].
+    intros _. split; [apply evolves_refl; exact G|reflexivity].
+  - assert (Hne : mhp t <> NO_MAXIMUM_HASHPOWER) by (unfold NO_MAXIMUM_HASHPOWER; lia).
+    assert (Hnh : new_hp <= mhp t).
+    { destruct (N.le_gt_cases new_hp (mhp t)) as [L|L]; [exact L|]. exfalso. apply Hm. split; assumption. }
+    assert (Hn58 : new_hp <= 58) by lia.
+    replace (58 <? new_hp) with false by (symmetry; apply N.ltb_ge; exact Hn58).
+    destruct (rehash_with_workers_good t G) as [G1 [Ec1 [El1 [L1 Hrc1]]]]. cbv zeta in G1, Ec1, El1, L1, Hrc1.
+    set (t1 := rehash_with_workers c hash t) in *.
+    assert (Hm1 : mhp t1 = mhp t) by (destruct L1 as [_ [_ [H _]]]; exact H).
+    assert (Hmax1 : mhp t1 = NO_MAXIMUM_HASHPOWER \/ new_hp <= mhp t1) by (right; rewrite Hm1; exact Hnh).
+    destruct (new_map_good auto t1 new_hp Hn58 Hmax1) as [G0 [Hhp0 [Hm0 [Hmlf0 Hempty]]]].
+    cbv zeta in G0, Hhp0, Hm0, Hmlf0, Hempty.
+    set (nm0 := new_map auto t1 new_hp) in *.
+    assert (St1 : settled t1) by (destruct G1 as [St1 _]; exact St1).
+    assert (Ha0 : arr_ok (cur t1)) by (apply (se_arr _ _ _ St1)).
+    assert (Hb1 : bhp (cur t1) < 60) by (destruct G1 as [_ [_ [Hb1 _]]]; exact Hb1).
+    assert (X0 : xinv (cur t1) nm0 (0, 0) (cur t1) nm0).
+    { constructor.
+      - exact G0.
+      - apply lim_same_refl.
+      - lia.
+      - intros k v. split.
+        + intro H. exfalso. exact (Hempty k v H).
+        + intros [b [s [e [Hlt _]]]]. exfalso. unfold plt in Hlt. cbn [fst snd] in Hlt. lia.
+      - intros b s _. reflexivity.
+      - intros _ b s. reflexivity.
+      - reflexivity.
+      - reflexivity. }
+    assert (Hl0 : limC (mhp nm0)) by (rewrite Hm0, Hm1; split; assumption).
+    assert (Hcap0 : mhp nm0 <= 59) by (rewrite Hm0, Hm1; lia).
+    assert (Hn : 0 + N.of_nat (N.to_nat (hashsize (hashpower t))) = 2 ^ bhp (cur t1)).
+    { rewrite hashpower_eq, <- Ec1, hashsize_spec by lia. lia. }
+    destruct (expand_move_buckets c (insert_with c hash fd) (cur t1) nm0 0
+                (N.to_nat (hashsize (hashpower t)))) as [[src' nm1] r] eqn:Em.
+    assert (Hx := expand_move_buckets_inv limC fd (cur t1) nm0 Hfd Ha0 Hl0 Hcap0 _ 0 (cur t1) nm0
+                    Hn X0 src' nm1 r Em).
+    destruct r as [ex|]; cbn [fst snd].
+    + (* an insertion into the temporary map failed *)
+      destruct Hx as [Hex [Hhps [Hdds Hnd]]].
+      split.
+      * destruct Hex as [[He Hmx]|[[He [_ Hml]]|He]].
+        -- left. split; [exact He|]. rewrite <- Hm1, <- Hm0. exact Hmx.
+        -- right. left. split; [exact He|]. rewrite Hmlf0 in Hml. destruct auto; [|contradiction].
+           split; [reflexivity|]. destruct L1 as [H _]. rewrite <- H. exact Hml.
+        -- right. right. exact He.
+      * intro Hd. specialize (Hnd Hd).
+        assert (Hbeq : beq (cur t1) src') by (split; [symmetry; exact Hhps|intros b s; symmetry; apply Hnd]).
+        assert (Hcnt : count_arr c src' = count_arr c (cur t1)).
+        { apply count_arr_ext; [exact Hhps|]. intros b s _ _. unfold occupied. rewrite Hnd. reflexivity. }
+        destruct G1 as [_ [Ct1 [_ [Hl1 Hw1]]]].
+        split; [|rewrite <- Ec1; exact Hhps]. split; [|split; [|split]].
+        -- split; [|split; [|split; [|split]]].
+           ++ apply settled_set_cur; [exact St1|apply (arr_ok_ext c hash _ _ Hbeq Ha0)| |exact Hhps].
+              rewrite Hdds. apply (se_alive _ _ _ St1).
+           ++ apply counted_set_cur_same; [exact Hcnt|exact Ct1].
+           ++ cbn [cur set_cur]. rewrite Hhps. exact Hb1.
+           ++ rewrite cur_locks_set_cur. exact Hl1.
+           ++ apply (within_same t1 _); [reflexivity|exact Hhps|exact Hw1].
+        -- intros k v. cbn [cur set_cur]. rewrite <- (holds_ext _ _ k v Hbeq), Ec1. reflexivity.
+        -- apply (lim_same_trans _ _ _ L1). repeat split.
+        -- cbn [cur set_cur]. rewrite Hhps, Ec1. lia.
+    + (* every element moved *)
+      assert (G1' := xv_good _ _ _ _ _ Hx). assert (Lx := xv_lim _ _ _ _ _ Hx).
+      assert (Hhpx := xv_hp _ _ _ _ _ Hx).
+      assert (Hh : forall k v, holds (cur nm1) k v <-> holds (cur t1) k v).
+      { intros k v. rewrite (xv_holds _ _ _ _ _ Hx k v). split.
+        - intros [b [s [e [_ [He [Hk Hv]]]]]]. exists b, s, e. split; [exact He|]. split; assumption.
+        - intros [b [s [e [He [Hk Hv]]]]]. exists b, s, e. split; [|split; [exact He|split; assumption]].
+          destruct (ao_range _ _ _ Ha0 _ _ _ He) as [Hb _]. left. cbn [fst]. exact Hb. }
+      destruct (rehash_with_workers_good nm1 G1') as [_ [Ec2 _]]. cbv zeta in Ec2.
+      set (nm2 := rehash_with_workers c hash nm1) in *.
+      assert (St' : settled nm1) by (destruct G1' as [S _]; exact S).
+      assert (Hb' : bhp (cur nm1) < 60) by (destruct G1' as [_ [_ [H _]]]; exact H).
+      assert (Hw' : within nm1) by (destruct G1' as [_ [_ [_ [_ H]]]]; exact H).
+      assert (Enb : bucket_count nm2 = 2 ^ bhp (cur nm1)).
+      { unfold bucket_count. rewrite hashpower_eq, Ec2. apply hashsize_spec. lia. }
+      rewrite Enb.
+      set (t2 := maybe_resize_locks c t1 (2 ^ bhp (cur nm1))).
+      set (t' := set_rc (set_cur t2 (cur nm2)) (wrap64 (rc (set_cur t2 (cur nm2)) + 1))).
+      assert (Ect : cur t' = cur nm1) by (rewrite <- Ec2; reflexivity).
+      assert (Elt : locks t' = locks t2) by reflexivity.
+      assert (Hclt : cur_locks t' = cur_locks t2) by (apply cur_locks_locks; exact Elt).
+      destruct (maybe_resize_locks_scalars c t1 (2 ^ bhp (cur nm1))) as [_ [S2 [S3 [S4 [S5 S6]]]]].
+      fold t2 in S2, S3, S4, S5, S6.
+      assert (Hlen := maybe_resize_locks_length_eq c t1 (2 ^ bhp (cur nm1))). fold t2 in Hlen.
+      destruct G1 as [_ [Ct1 [_ [Hl1 Hw1]]]].
+      assert (Hmx : mhp nm1 = mhp t1) by (destruct Lx as [_ [_ [H _]]]; rewrite H; exact Hm0).
+      split; [|split; [|split; [|split; [|split; [|split; [exact Hm|exact Hlf]]]]]].
+      * split; [|split; [|split; [|split]]].
+        -- constructor.
+           ++ rewrite Ect. apply (se_arr _ _ _ St').
+           ++ rewrite Ect. apply (se_alive _ _ _ St').
+           ++ apply (all_migrated_locks t2 t' Elt).
+              apply maybe_resize_locks_all_migrated. apply (se_mig _ _ _ St1).
+           ++ rewrite Elt. apply maybe_resize_locks_nonnil. apply (se_locks _ _ _ St1).
+           ++ rewrite Ect, Hclt. apply (cover_min c Hc). rewrite Hlen. lia.
+        -- unfold InvDefs.counted in *. rewrite Hclt, Ect. unfold t2.
+           rewrite maybe_resize_locks_sum, Ct1. f_equal. symmetry.
+           apply count_arr_holds; [exact Ha0|apply (se_arr _ _ _ St')|exact Hh].
+        -- rewrite Ect. exact Hb'.
+        -- rewrite Hclt, Hlen. apply Nat.max_lub; [exact Hl1|lia].
+        -- unfold within in *. rewrite Ect. change (mhp t') with (mhp t2). rewrite S5, <- Hmx. exact Hw'.
+      * intros k v. rewrite Ect, (Hh k v), Ec1. reflexivity.
+      * apply (lim_same_trans _ _ _ L1). change (lim_same t1 t2). repeat split; assumption.
+      * rewrite Ect. lia.
+      * change (rc t') with (wrap64 (rc t2 + 1)). rewrite S2, Hrc1. reflexivity.
+Qed.
+
+
+Lemma es_body_maxed fd auto t new_hp :
+  maxed t new_hp -> es_body fd auto t new_hp = (t, inl EMaxHashpower).
+Proof.
+  intro Hm. unfold es_body. cbv zeta.
+  destruct (crv_self auto t new_hp) as [[_ E]|[[Hn _]|[Hn _]]]; [|contradiction|contradiction].
+  cbv zeta in E. rewrite E. reflexivity.
+Qed.
+
+Lemma es_body_lf fd t new_hp :
+  ~ maxed t new_hp -> lf_lt_mlf c t = true -> es_body fd true t new_hp = (t, inl ELoadFactorTooLow).
+Proof.
+  intros Hm Hlf. unfold es_body. cbv zeta.
+  destruct (crv_self true t new_hp) as [[Hn _]|[[_ [_ [_ E]]]|[_ [H _]]]]; [contradiction| |].
+  - cbv zeta in E. rewrite E. reflexivity.
+  - rewrite (H eq_refl) in Hlf. discriminate.
+Qed.
+
+Lemma fd_ok_weaken (lim lim' : N -> Prop) fd mode :
+  (forall x, lim' x -> lim x) -> fd_ok lim fd mode -> fd_ok lim' fd mode.
+Proof. intros H Hfd t G Hl. apply Hfd; [exact G|apply H; exact Hl]. Qed.
+
+(* both resize functions, at any fuel, for either kind of element type *)
+Lemma resize_f_good : forall fuel,
+  (forall mode, fd_ok limC (fast_double_f c hash fuel true) mode) /\
+  (forall auto mode t new_hp, good t -> limC (mhp t) ->
+     es_post auto t new_hp (expand_simple_f c hash fuel auto mode t new_hp)).
+Proof.
+  induction fuel as [|f [IH1 IH2]].
+  - split.
+    + intros mode t G Hl. cbn [fast_double_f]. right. cbn [fst snd].
+      split; [apply exn_ok_fuel|]. intros _. apply evolves_refl. exact G.
+    + intros auto mode t new_hp G Hl. cbn [expand_simple_f]. unfold es_post. cbn [fst snd].
+      split; [right; right; reflexivity|]. intros _. split; [apply evolves_refl; exact G|reflexivity].
+  - split.
+    + intro mode. destruct (nothrow c) eqn:Hnt.
+      * apply (fd_ok_weaken (fun x => mode = true \/ x <= lbits c)); [|apply fd_ok_nothrow; exact Hnt].
+        intros x [H _]. right. exact H.
+      * intros t G Hl. rewrite (fast_double_f_S_throw f true mode t _ Hnt).
+        assert (Hp := IH2 true mode t (bhp (cur t) + 1) G Hl). unfold es_post in Hp. unfold fd_post. right.
+        destruct (expand_simple_f c hash f true mode t (bhp (cur t) + 1)) as [t' [e|st]]; cbn [fst snd] in *.
+        -- destruct Hp as [He Hd]. split; [split; [exact He|intro H; congruence]|].
+           intros [H|H]; [congruence|]. apply (Hd H).
+        -- destruct st; try contradiction. destruct Hp as [G' [Hh [L [Hb _]]]].
+           split; [|lia]. split; [exact G'|]. split; [exact Hh|]. split; [exact L|lia].
+    + intros auto mode t new_hp G Hl. rewrite expand_simple_f_S.
+      apply es_body_good; [apply IH1|exact G|exact Hl].
+Qed.
+
+(* item 4 *)
+Theorem cuckoo_expand_simple_good auto mode t new_hp :
+  good t -> limC (mhp t) ->
+  let r := cuckoo_expand_simple c hash auto mode t new_hp in
+  (maxed t new_hp -> r = (t, inl EMaxHashpower)) /\
+  (~ maxed t new_hp -> auto = true -> lf_lt_mlf c t = true -> r = (t, inl ELoadFactorTooLow)) /\
+  es_post auto t new_hp r.
+Proof.
+  intros G Hl r. subst r. unfold cuckoo_expand_simple, resize_fuel.
+  split; [|split].
+  - intro Hm. rewrite expand_simple_f_S. apply es_body_maxed. exact Hm.
+  - intros Hm -> Hlf. rewrite expand_simple_f_S. apply es_body_lf; assumption.
+  - apply (proj2 (resize_f_good 6) auto mode t new_hp G Hl).
+Qed.
+
+(* the automatic expansion of any element type under a small maximum hashpower *)
+Lemma fd_ok_capped mode : fd_ok limC (cuckoo_fast_double c hash) mode.
+Proof. exact (proj1 (resize_f_good 6) mode). Qed.
+
+(* item 3 without the nothrow assumption (limits capped as for the rebuild) *)
+Theorem uprase_gen_good_capped mode t k v g :
+  good t -> limC (mhp t) ->
+  forall t' r, uprase_gen c hash mode t k v g = (t', r) -> up_post t k v g t' r.
+Proof.
+  intros G Hl t' r E. rewrite uprase_gen_eq in E.
+  destruct (uprase_with_good limC _ mode (fd_ok_capped mode) t k v g G Hl t' r E) as [Hin Hout].
+  assert (St : settled t) by (destruct G as [St _]; exact St).
+  destruct (key_in_dec c hash t k (se_arr _ _ _ St)) as [Hk|Hk]; [exact (Hin Hk)|].
+  destruct (Hout Hk) as [He|H]; [|exact H].
+  exfalso. destruct Hl as [_ H58]. apply (esc_capped t); [lia|exact He].
+Qed.
+
+(* ================================================================== J. rehash and reserve *)
+
+Lemma cuckoo_reserve_eq mode t n :
+  cuckoo_reserve c hash mode t n = cuckoo_rehash c hash mode t (reserve_calc c n).
+Proof. reflexivity. Qed.
+
+(* item 5 *)
+Theorem cuckoo_rehash_good mode t n :
+  good t -> limC (mhp t) ->
+  forall t' r, cuckoo_rehash c hash mode t n = (t', r) ->
+  (r = inr false <-> n = bhp (cur t)) /\
+  (r = inr false -> t' = t) /\
+  (r = inr true ->
+     good t' /\ (forall k v, holds (cur t') k v <-> holds (cur t) k v) /\ lim_same t t' /\
+     n <= bhp (cur t') /\ rc t' = wrap64 (rc t + 1) /\ ~ maxed t n) /\
+  (forall e, r = inl e ->
+     n <> bhp (cur t) /\ exn_ok0 false t e /\ e <> ELoadFactorTooLow /\
+     (maxed t n -> t' = t /\ e = EMaxHashpower) /\
+     (destructive c = false -> evolves t t' /\ bhp (cur t') = bhp (cur t))).
+Proof.
+  intros G Hl t' r E. unfold cuckoo_rehash in E. rewrite hashpower_eq in E.
+  destruct (N.eqb_spec n (bhp (cur t))) as [Heq|Hne].
+  - injection E as <- <-. split; [split; [intros _; exact Heq|reflexivity]|].
+    split; [reflexivity|]. split; [intro H; discriminate|]. intros e H. discriminate.
+  - destruct (cuckoo_expand_simple_good false mode t n G Hl) as [Hmx [_ Hp]]. cbv zeta in Hmx, Hp.
+    unfold es_post in Hp.
+    destruct (cuckoo_expand_simple c hash false mode t n) as [t1 [e|st]] eqn:Ees; cbn [fst snd] in Hp.
+    + injection E as <- <-. split; [split; [intro H; discriminate|intro H; contradiction]|].
+      split; [intro H; discriminate|]. split; [intro H; discriminate|].
+      intros e' H. injection H as <-. destruct Hp as [He Hd]. split; [exact Hne|]. split; [exact He|].
+      split.
+      * intro H. subst e. destruct He as [[H _]|[[_ [H _]]|H]]; discriminate.
+      * split; [|exact Hd]. intro Hm. specialize (Hmx Hm). injection Hmx as <- <-. split; reflexivity.
+    + destruct st; try contradiction. injection E as <- <-.
+      split; [split; [intro H; discriminate|intro H; contradiction]|].
+      split; [intro H; discriminate|]. split; [|intros e H; discriminate].
+      intros _. destruct Hp as [G' [Hh [L [Hb [Hrc [Hm _]]]]]].
+      split; [exact G'|]. split; [exact Hh|]. split; [exact L|]. split; [exact Hb|]. split; assumption.
+Qed.
+
+Theorem cuckoo_reserve_good mode t n :
+  good t -> limC (mhp t) ->
+  forall t' r, cuckoo_reserve c hash mode t n = (t', r) ->
+  let new_hp := reserve_calc c n in
+  (r = inr false <-> new_hp = bhp (cur t)) /\
+  (r = inr false -> t' = t) /\
+  (r = inr true ->
+     good t' /\ (forall k v, holds (cur t') k v <-> holds (cur t) k v) /\ lim_same t t' /\
+     new_hp <= bhp (cur t') /\ rc t' = wrap64 (rc t + 1) /\ ~ maxed t new_hp /\
+     (n + spb c < 2 ^ 64 -> n <= 2 ^ bhp (cur t') * spb c)) /\
+  (forall e, r = inl e ->
+     new_hp <> bhp (cur t) /\ exn_ok0 false t e /\ e <> ELoadFactorTooLow /\
+     (maxed t new_hp -> t' = t /\ e = EMaxHashpower) /\
+     (destructive c = false -> evolves t t' /\ bhp (cur t') = bhp (cur t))).
+Proof.
+  intros G Hl t' r E new_hp. rewrite cuckoo_reserve_eq in E. fold new_hp in E.
+  destruct (cuckoo_rehash_good mode t new_hp G Hl t' r E) as [H1 [H2 [H3 H4]]].
+  split; [exact H1|]. split; [exact H2|]. split; [|exact H4].
+  intro Hr. destruct (H3 Hr) as [G' [Hh [L [Hb [Hrc Hm]]]]].
+  split; [exact G'|]. split; [exact Hh|]. split; [exact L|]. split; [exact Hb|]. split; [exact Hrc|].
+  split; [exact Hm|]. intro Hn.
+  destruct (reserve_calc_fits c n (co_spb _ Hc) Hn) as [Hfit _]. fold new_hp in Hfit.
+  assert (Hp := pow2_le_mono _ _ Hb).
+  eapply N.le_trans; [exact Hfit|]. apply N.mul_le_mono_r. exact Hp.
+Qed.
+
+(* ================================================================== K. lookups, setters, construction *)
+
+Lemma upd_holds_same a a' k v0 :
+  arr_ok a -> holds a k v0 -> upd_holds a a' k (Some v0) ->
+  forall k' v', holds a' k' v' <-> holds a k' v'.
+Proof.
+  intros Ha H0 U k' v'. rewrite (U k' v'). split.
+  - intros [[_ H]|[-> H]]; [exact H|]. injection H as <-. exact H0.
+  - intro H. destruct (N.eq_dec k' k) as [E|E]; [right|left; split; assumption].
+    split; [exact E|]. subst k'. f_equal. apply (holds_fun c hash _ _ _ _ Ha H0 H).
+Qed.
+
+Lemma upd_holds_absent_none a a' k :
+  ~ key_in a k -> upd_holds a a' k None -> forall k' v', holds a' k' v' <-> holds a k' v'.
+Proof.
+  intros Hk U k' v'. rewrite (U k' v'). split.
+  - intros [[_ H]|[_ H]]; [exact H|discriminate].
+  - intro H. left. split; [|exact H]. intro E. subst k'. apply Hk. apply key_in_holds. exists v'. exact H.
+Qed.
+
+(* find / contains / update / update_fn / erase / erase_fn and their locked_table forms *)
+Theorem lookup_fn_good mode t k g :
+  good t ->
+  forall t' r, lookup_fn c hash mode t k g = (t', r) ->
+  good t' /\ lim_same t t' /\ bhp (cur t') = bhp (cur t) /\
+  ((~ key_in (cur t) k /\ r = None /\ t' = t) \/
+   (exists v0, holds (cur t) k v0 /\ r = Some v0 /\
+      upd_holds (cur t) (cur t') k (if snd (g v0) then None else Some (fst (g v0))))).
+Proof.
+  intros G t' r E. assert (St : settled t) by (destruct G as [St _]; exact St).
+  assert (Ha := se_arr _ _ _ St).
+  destruct (key_in_dec c hash t k Ha) as [Hk|Hk].
+  2:{ rewrite (lookup_fn_absent c hash mode t k g St Hk) in E. injection E as <- <-.
+      split; [exact G|]. split; [apply lim_same_refl|]. split; [reflexivity|]. left.
+      split; [exact Hk|]. split; reflexivity. }
+  unfold lookup_fn in E.
+  rewrite (snapshot_and_lock_two_settled c hash mode t k (se_mig _ _ _ St)) in E.
+  rewrite hashpower_eq in E. unfold hashed_partial in E.
+  destruct (cuckoo_find_cases c hash t k Ha) as [[Hs [_ [_ [e [He Hek]]]]]|[_ Hn]]; [|contradiction].
+  cbv zeta in Hs, He. rewrite Hs in E. unfold val_at in E. rewrite He in E.
+  set (pos := cuckoo_find c t k (partial_key (hash k)) (i1_of hash (bhp (cur t)) k)
+                (i2_of hash (bhp (cur t)) k)) in *.
+  assert (Hself : holds (cur t) k (eval e)).
+  { exists (pindex pos), (pslot pos), e. split; [exact He|]. split; [exact Hek|reflexivity]. }
+  destruct (g (eval e)) as [v' er] eqn:Eg. cbv beta iota zeta in E.
+  destruct (good_set_val t (pindex pos) (pslot pos) e v' G He) as [G4 [L4 [Hhp4 [[e4 [He4 [Hk4 Hv4]]] Hh4]]]].
+  cbv zeta in G4, L4, Hhp4, He4, Hh4. rewrite Hek in Hh4, Hk4.
+  destruct er.
+  - destruct (good_del (set_val t (pindex pos) (pslot pos) v') (pindex pos) (pslot pos) e4 G4 He4)
+      as [G5 [L5 [Hhp5 Hh5]]]. cbv zeta in G5, L5, Hhp5, Hh5. rewrite Hk4 in Hh5.
+    injection E as <- <-. split; [exact G5|]. split; [exact (lim_same_trans _ _ _ L4 L5)|].
+    split; [congruence|]. right. exists (eval e). split; [exact Hself|]. split; [reflexivity|].
+    rewrite Eg. cbn [fst snd]. intros k' v''. rewrite Hh5, Hh4. split.
+    + intros [[[E1 _]|[E1 H]] Hne]; [contradiction|]. left. split; assumption.
+    + intros [[E1 H]|[_ H]]; [|discriminate]. split; [right; split; assumption|exact E1].
+  - injection E as <- <-. split; [exact G4|]. split; [exact L4|]. split; [exact Hhp4|].
+    right. exists (eval e). split; [exact Hself|]. split; [reflexivity|].
+    rewrite Eg. cbn [fst snd]. intros k' v''. rewrite Hh4. split.
+    + intros [[E1 E2]|[E1 H]]; [right; split; [exact E1|rewrite E2; reflexivity]|left; split; assumption].
+    + intros [[E1 H]|[E1 H]]; [right; split; assumption|left]. injection H as <-. split; [exact E1|reflexivity].
+Qed.
+
+Lemma good_set_mlf t n d : good t -> good (set_mlf t n d).
+Proof. intro G. apply (good_ext t (set_mlf t n d)); [reflexivity|reflexivity|reflexivity|exact G]. Qed.
+
+Lemma good_set_workers t w : good t -> good (set_workers t w).
+Proof. intro G. apply (good_ext t (set_workers t w)); [reflexivity|reflexivity|reflexivity|exact G]. Qed.
+
+Lemma good_set_mhp t m : good t -> bhp (cur t) <= m -> good (set_mhp t m).
+Proof.
+  intros G H. apply (good_ext_w t (set_mhp t m)); [reflexivity|reflexivity|exact G|]. right. exact H.
+Qed.
+
+Lemma good_new_table n :
+  reserve_calc c n < 60 ->
+  good (new_table c n) /\ (forall k v, ~ holds (cur (new_table c n)) k v) /\
+  bhp (cur (new_table c n)) = reserve_calc c n.
+Proof.
+  intro H. assert (Hr62 : reserve_calc c n < 62) by lia.
+  destruct (new_table_ok c hash n Hc Hr62) as [St [Ct [_ [_ Hhp]]]]. rewrite hashpower_eq in Hhp.
+  split; [|split; [|exact Hhp]].
+  - split; [exact St|]. split; [exact Ct|]. split; [lia|]. split.
+    + rewrite new_table_cur_locks, repeat_length. lia.
+    + left. reflexivity.
+  - intros k v [b [s [e [He _]]]].
+    change (cur (new_table c n)) with (bnew (reserve_calc c n)) in He. rewrite bget_bnew in He. discriminate.
+Qed.
+
+(* entering locked_table mode on a settled table *)
+Lemma good_lock t : good t -> good (rehash_with_workers c hash t) /\ cur (rehash_with_workers c hash t) = cur t.
+Proof. intro G. destruct (rehash_with_workers_good t G) as [G1 [E _]]. split; assumption. Qed.
+
 End Refine.
+
+(* Why the insert-family theorems carry the [esc] alternative and why an exception may leave a
+   LARGER table: with a degenerate hash function one failing insert doubles the table repeatedly
+   until a policy stops it (here maximum_hashpower = 4, minimum_load_factor = 0).  With no maximum
+   and minimum_load_factor = 0 only the loop fuel stops it, far beyond hashpower 60. *)
+Module RefineExample.
+Definition c1 : config := {| spb := 1; lbits := 16; simple := true; nothrow := true; destructive := false |}.
+Definition h0 (_ : N) : N := 0.
+Definition ins (t : table) (k : N) := uprase_gen c1 h0 false t k 7%Z (fun _ _ => None).
+Definition t0 := set_mlf (set_mhp (new_table c1 0) 4) 0 1.
+Definition t2 := fst (ins (fst (ins t0 1)) 2).
+
+Example repeated_doubling :
+  (bhp (cur t2), bhp (cur (fst (ins t2 3))), snd (ins t2 3), rc (fst (ins t2 3)))
+  = (1, 4, inl EMaxHashpower, 4).
+Proof. vm_compute. reflexivity. Qed.
+End RefineExample.
